@@ -1,17 +1,18 @@
-import Wayfind.Proofs.Reach
+import Wayfind.Proofs.Reachable
 
 /-! # C03 — the documented priority picks the winner
 `refWalk` (Spec/RefWalk.lean) is the documented walk written over a plain list of routes: literal text first, then
 constrained dynamic, dynamic, constrained wildcard, wildcard, constrained catch-all, catch-all; alternatives of one
 kind in alphabetical order of name then constraint; among the values of one parameter the deeper, then longer
-template, then the longer value. The theorem: on every reachable tree — whatever flags, dirty marks and radix
-splits its history left — the search *is* that walk over the tree's routes.
-Status: **partial** — tree layer; see C01. -/
+template, then the longer value. The theorem: on every router reachable through the API — whatever flags, dirty
+marks and radix splits its history left — `search` *is* that walk over the tree's routes, and reports the winner's
+template, expansion, data and parameter list.
+Status: **partial** — stored routes ↔ live templates is the registry invariant; see C01. -/
 
-theorem C03_search_is_documented_walk (env : Env) (ops : List ROp) (hw : ∀ op ∈ ops, op.wf) (path : Bytes) :
-    Node.search env (ops.foldl applyROp Node.empty) path [] =
-      refWalk env path.length (Node.routes (ops.foldl applyROp Node.empty)) path [] :=
-  (reachable_search env ops hw path).1
+theorem C03_search_is_documented_walk (env : Env) (r : Router) (h : Reachable r) (path : Bytes) :
+    r.search env path =
+      (refWalk env path.length (Node.routes r.root) path []).map (fun (i, ps) => ⟨i.template, i.expanded, i.data, ps⟩) :=
+  Router.search_eq_walk env r h path
 
 /-- literal text is tried before any parameter: if the literal branch of the walk succeeds, that is the answer -/
 theorem C03_literal_first (env : Env) (fuel : Nat) (rs : List Route) (b : Byte) (tl : Bytes) (ps : Params) (x : Info × Params)
